@@ -4,7 +4,7 @@ From Coq Require Import String List NArith ZArith Bool.
 From J5V.lib Require Import Outcome.
 From J5V.model Require Import ReflectDesc ReflectSchema Reflect ReflectSpec.
 From J5V.gen Require ReflectGen.
-From J5V.proofs Require Import ReflectProofs ExportProofs ReflectInvProofs.
+From J5V.proofs Require Import ReflectProofs ExportProofs ReflectInvProofs ReflectPathProofs ReflectFuelProofs ReflectFlattenProofs ReflectCodecProofs.
 From J5V.model Require Import Export.
 Import ListNotations.
 
@@ -28,6 +28,17 @@ Theorem C18_reflect_total : forall D, wf_total D -> forall fs,
 Proof. exact reflect_total. Qed.
 Print Assumptions C18_reflect_total.
 
+(* "never recurses forever", for EVERY descriptor set and every cache state (no hypothesis): the fuel
+   |messages| + 1 is never exhausted; the recursion is cut by the placeholder registered before a
+   message is built, and checkFlattenCycle's walk is bounded by the entries it has not expanded yet *)
+Theorem C18_reader_never_out_of_fuel : forall D fs, reflect D fs <> OutOfFuel.
+Proof. exact reflect_never_out_of_fuel. Qed.
+Print Assumptions C18_reader_never_out_of_fuel.
+
+Theorem C18_cache_never_out_of_fuel : forall D st m, In m (d_msgs D) -> snd (cache_schema D (size D) st m) <> OutOfFuel.
+Proof. exact cache_schema_never_out_of_fuel. Qed.
+Print Assumptions C18_cache_never_out_of_fuel.
+
 (* SchemaCache.Schema, from any cache state reachable by earlier calls (the invariant [Inv] is
    kept by every call, successful or not): no panic, no fuel exhaustion, no entry removed *)
 Theorem C18_cache_schema_total : forall D, wf_total D -> forall st m, In m (d_msgs D) -> Inv D st ->
@@ -36,18 +47,68 @@ Theorem C18_cache_schema_total : forall D, wf_total D -> forall st m, In m (d_ms
 Proof. exact cache_schema_total. Qed.
 Print Assumptions C18_cache_schema_total.
 
-(* ---- self-consistency of a successful reflection, for every well-formed descriptor set (wf_desc:
-   enums non-empty; split names of messages / enums / real oneofs pairwise distinct; JSON names of
-   the fields and exposed oneofs of a message distinct): distinct keys, no unlinked placeholder,
-   pairwise distinct property names in every object and oneof, every scalar format known, every
-   reference names an entry of the set *)
-Theorem C18_reflect_ok_guarantees : forall D, wf_desc D -> forall fs S,
+(* ---- self-consistency of a successful reflection, under the hypothesis wf_keys:
+     (1) enums non-empty (protodesc guarantees it),
+     (2) split names of messages / enums / real oneofs pairwise distinct (NOT guaranteed by a linked set:
+         C18_split_name_collision_refuted).
+   Conclusion: distinct keys, no unlinked placeholder, every scalar format known, every reference names
+   an entry of the set. The reader introduces no duplicate property name: the names of an object's
+   properties are pairwise distinct GIVEN json_ok,
+     (3) per message, the JSON names of its fields and of its exposed oneofs are pairwise distinct (protoc
+         guarantees this for the fields among themselves only: C18_exposed_oneof_name_clash_refuted).
+   Clause "property names are unique" of C18 is therefore proved only relative to (3); without it the
+   witness below refutes it. *)
+Theorem C18_reflect_ok_guarantees : forall D, wf_keys D -> forall fs S,
   reflect D fs = Ok S ->
   keys_distinct S = true /\ set_importable S = true /\ set_closed S = true /\
-  (forall k r, lookup S k = Some (Linked r) -> names_unique_b (root_props r) = true) /\
+  (json_ok D -> forall k r, lookup S k = Some (Linked r) -> names_unique_b (root_props r) = true) /\
   (forall k, lookup S k <> Some Placeholder).
 Proof. exact reflect_ok_guarantees. Qed.
 Print Assumptions C18_reflect_ok_guarantees.
+
+(* ---- "never recurses forever", codec side. ObjectSchema.ClientProperties expands flattened object
+   properties recursively (the stack overflow of defect #17 lived there). The flatten graph (an edge
+   from a linked object to the target of each of its flattened object properties) of EVERY successfully
+   reflected set is acyclic, with no hypothesis on the descriptors: checkFlattenCycle is a closed-set
+   search, and linking a root whose search answered "no cycle" cannot close a cycle. *)
+Theorem C18_flatten_graph_acyclic : forall D fs S, reflect D fs = Ok S -> acyclic S.
+Proof. exact reflect_acyclic. Qed.
+Print Assumptions C18_flatten_graph_acyclic.
+
+(* hence, when the split names are distinct (wf_keys: every flattened reference then leads to an
+   object), ClientProperties of every entry of a reflected set returns: it neither exhausts the fuel
+   |S|+1 (a path of an acyclic graph over the keys of S has at most |S| nodes) nor fails the type
+   assertion in ObjectField.Schema *)
+Theorem C18_client_properties_terminate : forall D fs S,
+  wf_keys D -> reflect D fs = Ok S ->
+  forall k r, lookup S k = Some (Linked r) -> exists out, client_props_of S r = Ok out.
+Proof. exact reflect_client_props_terminate. Qed.
+Print Assumptions C18_client_properties_terminate.
+
+(* ---- last clause, first half ("the codec can encode and decode an empty message of every reflected
+   type"): for every descriptor set with distinct split names and distinct field numbers per message,
+   after a successful reflection newPropSet succeeds on the root of every message: ClientProperties
+   returns and the proto path of every client property (through any depth of flattening) resolves in
+   the message descriptor *)
+Theorem C18_prop_sets_build : forall D fs S,
+  wf_keys D -> (forall m, In m (d_msgs D) -> NoDup (map f_num (m_fields m))) ->
+  reflect D fs = Ok S ->
+  forall m r, In m (d_msgs D) -> lookup S (msg_key m) = Some (Linked r) ->
+  exists pfs, new_prop_set D S r m = Ok pfs.
+Proof. exact reflect_prop_sets_build. Qed.
+Print Assumptions C18_prop_sets_build.
+
+(* ---- clause 2 of the property as a theorem, for every well-formed descriptor set whose field
+   numbers are distinct per message (wf_paths; protoc guarantees it): after a successful reflection
+   every object and oneof has pairwise distinct property names and every recorded proto field path
+   resolves, in the message the schema describes, to a field of the matching kind (scalar kind or
+   well-known type, enum to an enum schema, object / oneof to an object / oneof schema as
+   isOneofWrapper decides, arrays on repeated fields, maps on map fields; members of exposed oneofs
+   included) *)
+Theorem C18_reflect_consistent : forall D fs S,
+  wf_paths D -> reflect D fs = Ok S -> set_consistent D S = true.
+Proof. exact reflect_consistent. Qed.
+Print Assumptions C18_reflect_consistent.
 
 (* each proto kind is handled by an arm or rejected with an error, as the Go switches list them *)
 Theorem C18_scalar_arms_are_the_code's :
@@ -137,6 +198,34 @@ Proof.
 Qed.
 Print Assumptions C18_flatten_names_refuted.
 
+(* 4. (found by the independent audit) protoc checks JSON-name conflicts between fields only: an exposed
+   oneof named foo_bar gets the property name lowerCamel("foo_bar") = "fooBar", the same as the field
+   fooBar. Split names are distinct, enums non-empty, field JSON names distinct, field numbers distinct:
+   only json_ok, the second half of wf_desc (which also ranges over exposed oneofs), fails. *)
+Definition oneof_clash_desc : desc :=
+  {| d_msgs := [
+       Msg (bytes "p.v1.M") (bytes "p.v1") [bytes "M"]
+         [Fld (bytes "a") (bytes "a") 1 KString CSingle (Some 0%N) TNone ex_fopts [];
+          Fld (bytes "fooBar") (bytes "fooBar") 2 KString CSingle None TNone ex_fopts []]
+         [Oneof (bytes "foo_bar") (bytes "fooBar") false (Some true) []] None None []];
+     d_enums := [];
+     d_files := [File (bytes "p/v1/a.proto") (bytes "p.v1") [bytes "p.v1.M"] []] |}.
+
+Theorem C18_exposed_oneof_name_clash_refuted :
+  wf_total oneof_clash_desc /\ NoDup (all_keys oneof_clash_desc) /\
+  (forall m, In m (d_msgs oneof_clash_desc) -> NoDup (map f_json (m_fields m)) /\ NoDup (map f_num (m_fields m))) /\
+  exists S ps, reflect oneof_clash_desc (d_files oneof_clash_desc) = Ok S /\
+    lookup S (bytes "p.v1", bytes "M") = Some (Linked (RObject (bytes "M") [] None [] ps)) /\
+    names_unique_b ps = false /\ set_consistent oneof_clash_desc S = false.
+Proof.
+  split; [split; [intros e []|intros e m []]|].
+  split; [apply nodup_refs_NoDup; vm_compute; reflexivity|].
+  split.
+  - intros m [<-|[]]. split; [apply nodup_str_NoDup|apply nodup_N_NoDup]; vm_compute; reflexivity.
+  - eexists. eexists. split; [vm_compute; reflexivity|]. split; [vm_compute; reflexivity|]. split; vm_compute; reflexivity.
+Qed.
+Print Assumptions C18_exposed_oneof_name_clash_refuted.
+
 (* ---- non-vacuity: a self-recursive and a mutually recursive message, an enum, a bool const rule,
    a flattened (non-cyclic) field; wf_total holds and the reader succeeds *)
 Definition ex_desc : desc :=
@@ -157,9 +246,10 @@ Definition ex_desc : desc :=
      d_files := [File (bytes "p/v1/a.proto") (bytes "p.v1") [bytes "p.v1.Node"; bytes "p.v1.Peer"] [bytes "p.v1.Kind"]] |}.
 
 Example C18_example :
-  wf_desc ex_desc /\ wf_total ex_desc /\
+  wf_paths ex_desc /\ wf_desc ex_desc /\ wf_total ex_desc /\
   exists S, reflect ex_desc (d_files ex_desc) = Ok S /\ length S = 3%nat /\ set_consistent ex_desc S = true.
 Proof.
+  split; [apply wf_paths_b_sound; vm_compute; reflexivity|].
   split; [apply wf_desc_b_sound; vm_compute; reflexivity|].
   split.
   - split.
